@@ -1159,4 +1159,46 @@ pub struct MPMCFutSender<T> {""")]),
             let _lock = self.mem_manager.try_lock().map(|mut inner| {
                 if inner.try_freeing(epoch) {""")]),
     V('wrap-at-npot', 'C10', ['P15m'], [E('src/countedindex.rs', "        self.mask as Index + 1", "        (self.mask as Index).next_power_of_two()")]),
+
+    # ---------------------------------------------------------------- rules_extra2
+    V('dealloc-len-n', 'C05', ['P13e'], [E('src/alloc.rs', "Vec::from_raw_parts(tofree, 0, num);", "Vec::from_raw_parts(tofree, num, num);")]),
+    V('get-token-epoch-zero', 'C17', ['P12k'], [E(MEM, "inner.get_token(self.epoch.load(Ordering::Acquire))", "inner.get_token(self.epoch.load(Ordering::Acquire) & 0)")]),
+    V('remove-token-retain-eq', 'C16', ['P12k'], [E(MEM, "self.tokens.retain(|x| *x != token);", "self.tokens.retain(|x| *x == token);")]),
+    V('ctor-ignores-waiter', 'C08', ['S3'], [E('src/mpmc.rs', "let (send, recv) = MultiQueue::<MPMC<T>, T>::create_tx_rx_with(capacity, w);", "let _ = w;\n    let (send, recv) = MultiQueue::<MPMC<T>, T>::create_tx_rx_with(capacity, crate::wait::BusyWait::new());")]),
+    V('ctor-capacity-plus-one', 'C03', ['S3'], [E('src/broadcast.rs', "MultiQueue::<BCast<T>, T>::create_tx_rx(capacity)", "MultiQueue::<BCast<T>, T>::create_tx_rx(capacity + 1)")]),
+    V('byvalue-sink-swallows', 'C15', ['S3'], [E(MQ, """    #[inline(always)]
+    fn start_send(&mut self, msg: T) -> StartSend<T, SendError<T>> {
+        (&*self).start_send(msg)
+    }
+
+    #[inline(always)]
+    fn poll_complete(&mut self) -> Poll<(), SendError<T>> {
+        (&*self).poll_complete()
+    }
+}
+
+impl<RW: QueueRW<T>, T> Stream for &FutInnerRecv<RW, T> {""", """    #[inline(always)]
+    fn start_send(&mut self, msg: T) -> StartSend<T, SendError<T>> {
+        match (&*self).start_send(msg) {
+            Err(SendError(m)) => Ok(AsyncSink::NotReady(m)),
+            other => other,
+        }
+    }
+
+    #[inline(always)]
+    fn poll_complete(&mut self) -> Poll<(), SendError<T>> {
+        (&*self).poll_complete()
+    }
+}
+
+impl<RW: QueueRW<T>, T> Stream for &FutInnerRecv<RW, T> {""")]),
+    V('initial-consumers-two', 'C12', ['P15i'], [E(RC, """            ReaderMeta {
+                num_consumers: AtomicUsize::new(1),
+            },""", """            ReaderMeta {
+                num_consumers: AtomicUsize::new(2),
+            },""")]),
+    V('rf-dealloc-named', None, [], [E('src/alloc.rs', """    unsafe {
+        Vec::from_raw_parts(tofree, 0, num);
+    }""", """    let v = unsafe { Vec::from_raw_parts(tofree, 0, num) };
+    drop(v);""")], kind='refactor'),
 ]
